@@ -65,6 +65,7 @@ class TD7(OffPolicyCont):
             total_timesteps=link["total_timesteps"], total_episodes=link.get("total_episodes"), buffer_size=c["buffer_size"],
             gamma=c["gamma"], target_delay=c["target_delay"], policy_delay=c["policy_delay"],
             exploration_noise=c["exploration_noise"], target_policy_noise=c["target_policy_noise"], noise_clip=c["noise_clip"],
+            lap_alpha=c.get("lap_alpha", 0.4), lap_min_priority=c.get("lap_min_priority", 1.0),
             use_checkpoints=c["use_checkpoints"], max_episodes_when_checkpointing=c["max_episodes_when_checkpointing"],
             steps_before_checkpointing=c["steps_before_checkpointing"], reset_weight=c["reset_weight"],
             batch_size=c["batch_size"], learning_starts=c["learning_starts"], replay_buffer=run.buffer,
@@ -175,6 +176,7 @@ class MRQ(OffPolicyCont):
             total_timesteps=link["total_timesteps"], total_episodes=link.get("total_episodes"), buffer_size=c["buffer_size"],
             gamma=c["gamma"], target_delay=c["target_delay"], batch_size=c["batch_size"],
             exploration_noise=c["exploration_noise"], target_policy_noise=c["target_policy_noise"], noise_clip=c["noise_clip"],
+            lap_alpha=c.get("lap_alpha", 0.4), lap_min_priority=c.get("lap_min_priority", 1.0),
             learning_starts=c["learning_starts"], encoder_horizon=c["encoder_horizon"], q_horizon=c["q_horizon"],
             done_weight=c["done_weight"], replay_buffer=run.buffer, policy_with_encoder_target=m.get("pwe_target"),
             q_target=m.get("q_target"), logger=run.logger, global_step=global_step, progress_bar=False)
